@@ -6,7 +6,7 @@ import common
 def run(res):
     work = tempfile.mkdtemp(prefix="bgverif_c07_")
     try:
-        regen = common.regen_tables()
+        regen = common.regen_tables("C07")
         lean = common.lean_obligations("C07", res.tier)
         ok, log = common.cargo_build_harness(["c07"])
         if not ok:
